@@ -268,7 +268,7 @@ func preValidatedEntry(r *chainRoles) *ir.Func {
 func c01r5(c *Ctx) {
 	r := getChainRoles(c.P)
 	pre := preValidatedEntry(r)
-	for _, f := range r.methods {
+	for _, f := range r.methodsV {
 		for _, ab := range f.CallsTo(true, r.storeAddBlock) {
 			c.VisitGraph(f)
 			ob := c.Ob(f, "supplement-only-when-validated", ab.Pos())
@@ -280,7 +280,7 @@ func c01r5(c *Ctx) {
 				ob.OK("stored without supplement (to be validated when applied)")
 				continue
 			}
-			switch f {
+			switch f.Base {
 			case pre:
 				ob.OK("documented pre-validated entry (its only caller is constrained by C11.R1)")
 			case r.applyTip:
@@ -301,9 +301,9 @@ func c01r5(c *Ctx) {
 
 func c01r6(c *Ctx) {
 	r := getChainRoles(c.P)
-	ls := NewLockset(c.P, r.mu, r.methods)
+	ls := NewLocksetV(c.P, r.mu, r.methodsV, r.view)
 	guarded := []*types.Var{r.store, r.tipState, r.txpool, r.onReorg, r.onPool}
-	for _, m := range r.methods {
+	for _, m := range r.methodsV {
 		for _, f := range append([]*ir.Func{m}, m.Lits...) {
 			g := f.Graph()
 			for _, n := range g.Nodes {
@@ -336,8 +336,8 @@ func c01r6(c *Ctx) {
 func c01r7(c *Ctx) {
 	r := getChainRoles(c.P)
 	pre := preValidatedEntry(r)
-	for _, f := range r.methods {
-		if f == r.applyTip || f == pre {
+	for _, f := range r.methodsV {
+		if f.Base == r.applyTip || f.Base == pre {
 			continue
 		}
 		adds := f.CallsTo(false, r.storeAddBlock, r.storeAddState)
